@@ -10,7 +10,7 @@ import ast
 import hashlib
 import os
 from dataclasses import dataclass, field
-from typing import Dict, List, Optional, Tuple
+from typing import Dict, List, Optional, Set, Tuple
 
 REPO = os.environ.get("SANSLDAP_REPO", "/repo")
 PKG = "sansldap"
@@ -434,3 +434,57 @@ def dominating_literals(func: ast.AST, target: ast.AST, include_loops: bool = Tr
 
     block(getattr(func, "body", []), [])
     return found
+
+
+def reaching_constants(func_node: ast.AST) -> Dict[int, Dict[str, ast.expr]]:
+    """id(statement) -> {local: constant expression} for locals whose value at that statement is the literal they were last
+    assigned (straight-line reaching definitions; anything bound inside a compound statement is forgotten after it)."""
+    out: Dict[int, Dict[str, ast.expr]] = {}
+
+    def stores(stmts) -> Set[str]:
+        return {x.id for s_ in stmts for x in ast.walk(s_) if isinstance(x, ast.Name) and isinstance(x.ctx, (ast.Store, ast.Del))}
+
+    def block(stmts, env: Dict[str, ast.expr]) -> Dict[str, ast.expr]:
+        env = dict(env)
+        for s_ in stmts:
+            out[id(s_)] = dict(env)
+            if isinstance(s_, (ast.Assign, ast.AnnAssign)) and s_.value is not None:
+                tg = s_.targets if isinstance(s_, ast.Assign) else [s_.target]
+                for n in stores([s_]):
+                    env.pop(n, None)
+                if len(tg) == 1 and isinstance(tg[0], ast.Name) and isinstance(s_.value, ast.Constant):
+                    env[tg[0].id] = s_.value
+                continue
+            if isinstance(s_, (ast.FunctionDef, ast.AsyncFunctionDef, ast.ClassDef)):
+                continue
+            subs = []
+            for fld in ("body", "orelse", "finalbody"):
+                sub = getattr(s_, fld, None)
+                if isinstance(sub, list) and sub and isinstance(sub[0], ast.stmt):
+                    subs.append(sub)
+            for h in getattr(s_, "handlers", []) or []:
+                subs.append(h.body)
+            if subs:
+                inner_env = dict(env)
+                if isinstance(s_, (ast.For, ast.While, ast.AsyncFor)):
+                    for n in stores([s_]):
+                        inner_env.pop(n, None)         # a loop body may see values from its own earlier iterations
+                for sub in subs:
+                    block(sub, inner_env)
+            for n in stores([s_]):
+                env.pop(n, None)
+        return env
+    body = getattr(func_node, "body", [])
+    if isinstance(body, list):
+        block(body, {})
+    return out
+
+
+def enclosing_statement(func_node: ast.AST, target: ast.AST) -> Optional[ast.stmt]:
+    """the innermost statement of func_node that contains `target`"""
+    best = None
+    for s_ in ast.walk(func_node):
+        if isinstance(s_, ast.stmt) and any(x is target for x in ast.walk(s_)):
+            if best is None or any(x is s_ for x in ast.walk(best)):
+                best = s_
+    return best
